@@ -1,4 +1,5 @@
 import CG.Model.ScriptNum
+import CG.Spec.ScriptSem
 /-! Lemmas about the script-number codec (`stack.rs`). -/
 namespace CG.Proofs.ScriptNum
 open CG CG.Model.ScriptNum
@@ -74,5 +75,326 @@ theorem decode_encode (z : Int) : decodeBig (encodeBig z) = z := by
         rw [decodeBig_snoc]
         have h2 : d.toNat % 128 = d.toNat := by omega
         rw [if_neg hbig, h2, hval]; omega
+
+/-! ## the byte-level codec equals the closed-form reference (`value`, `encodeMin`) -/
+open CG.Spec.ScriptSem
+
+theorem pow256 (k : Nat) : (256 : Nat) ^ k = 2 ^ (8 * k) := by
+  rw [show (256 : Nat) = 2 ^ 8 by rfl, ← Nat.pow_mul]
+
+theorem list_snoc_of_ne_nil {α} (s : List α) (h : s ≠ []) : ∃ init d, s = init ++ [d] :=
+  ⟨s.dropLast, s.getLast h, (List.dropLast_concat_getLast h).symm⟩
+
+/-- `2 ^ (8 * (k+1) - 1) = 256 ^ k * 128` -/
+theorem top_eq (k : Nat) : 2 ^ (8 * (k + 1) - 1) = 256 ^ k * 128 := by
+  rw [pow256, show 8 * (k + 1) - 1 = 8 * k + 7 by omega, Nat.pow_add]
+
+theorem value_snoc (init : Bytes) (d : UInt8) :
+    value (init ++ [d]) =
+      if d.toNat ≥ 128 then - ((leToNat init + 256 ^ init.length * (d.toNat % 128) : Nat) : Int)
+      else ((leToNat init + 256 ^ init.length * (d.toNat % 128) : Nat) : Int) := by
+  have hlt := leToNat_lt init
+  have hd := d.toNat_lt
+  have hP : 0 < 256 ^ init.length := Nat.pow_pos (by decide)
+  have hne : (init ++ [d]).isEmpty = false := by simp
+  unfold value
+  simp only [hne, Bool.false_eq_true, if_false, List.length_append, List.length_singleton, top_eq,
+    leToNat_snoc]
+  generalize 256 ^ init.length = P at *
+  generalize leToNat init = A at *
+  by_cases h : d.toNat ≥ 128
+  · have e : P * d.toNat = P * 128 + P * (d.toNat % 128) := by rw [← Nat.mul_add]; congr 1; omega
+    rw [if_pos h, if_pos (by omega)]
+    omega
+  · have e : d.toNat % 128 = d.toNat := by omega
+    have h2 : P * d.toNat + P ≤ P * 128 := by
+      have : P * (d.toNat + 1) ≤ P * 128 := Nat.mul_le_mul_left _ (by omega)
+      rwa [Nat.mul_add, Nat.mul_one] at this
+    rw [if_neg h, if_neg (by omega), e]
+
+/-- `decode_bigint` computes the numeric value of the byte string -/
+theorem decodeBig_eq_value (s : Bytes) : decodeBig s = value s := by
+  by_cases hs : s = []
+  · subst hs; rfl
+  · obtain ⟨init, d, rfl⟩ := list_snoc_of_ne_nil s hs
+    rw [decodeBig_snoc, value_snoc]
+
+/-! ### `minLen` is the least `k ≥ 1` with `m < 2^(8k-1)` -/
+
+theorem minLenAux_spec (m : Nat) : ∀ fuel k, 1 ≤ k →
+    (∀ j, 1 ≤ j → j < k → 2 ^ (8 * j - 1) ≤ m) → m < 2 ^ (8 * (k + fuel - 1) - 1) →
+    k ≤ minLenAux m fuel k ∧ m < 2 ^ (8 * minLenAux m fuel k - 1) ∧
+      ∀ j, 1 ≤ j → j < minLenAux m fuel k → 2 ^ (8 * j - 1) ≤ m := by
+  intro fuel
+  induction fuel with
+  | zero =>
+    intro k hk hinv hf
+    simp only [minLenAux]
+    refine ⟨Nat.le_refl _, ?_, hinv⟩
+    by_cases h1 : k = 1
+    · subst h1; simp at hf; omega
+    · have := hinv (k - 1) (by omega) (by omega)
+      simp only [Nat.add_zero] at hf
+      omega
+  | succ fuel ih =>
+    intro k hk hinv hf
+    simp only [minLenAux]
+    by_cases h : m < 2 ^ (8 * k - 1)
+    · rw [if_pos h]; exact ⟨Nat.le_refl _, h, hinv⟩
+    · rw [if_neg h]
+      have := ih (k + 1) (by omega)
+        (by intro j h1 h2
+            by_cases hj : j = k
+            · subst hj; omega
+            · exact hinv j h1 (by omega))
+        (by rw [show k + 1 + fuel - 1 = k + (fuel + 1) - 1 by omega]; exact hf)
+      exact ⟨by omega, this.2⟩
+
+theorem lt_two_pow_8 (m : Nat) (hm : m ≠ 0) : m < 2 ^ (8 * m - 1) :=
+  Nat.lt_of_lt_of_le Nat.lt_two_pow_self (Nat.pow_le_pow_right (by decide) (by omega))
+
+theorem minLen_spec (m : Nat) (hm : m ≠ 0) :
+    1 ≤ minLen m ∧ m < 2 ^ (8 * minLen m - 1) ∧ ∀ j, 1 ≤ j → j < minLen m → 2 ^ (8 * j - 1) ≤ m := by
+  unfold minLen
+  rw [if_neg hm]
+  exact minLenAux_spec m m 1 (Nat.le_refl _) (by intro j h1 h2; omega)
+    (by rw [show 1 + m - 1 = m by omega]; exact lt_two_pow_8 m hm)
+
+theorem minLen_eq (m k : Nat) (hm : m ≠ 0) (hk : 1 ≤ k) (hlt : m < 2 ^ (8 * k - 1))
+    (hge : k = 1 ∨ 2 ^ (8 * (k - 1) - 1) ≤ m) : minLen m = k := by
+  obtain ⟨h1, h2, h3⟩ := minLen_spec m hm
+  by_cases hlt' : minLen m < k
+  · rcases hge with rfl | hge
+    · omega
+    · have : 2 ^ (8 * minLen m - 1) ≤ 2 ^ (8 * (k - 1) - 1) :=
+        Nat.pow_le_pow_right (by decide) (by omega)
+      omega
+  · by_cases hgt : k < minLen m
+    · have := h3 k hk hgt; omega
+    · omega
+
+theorem encodeMin_eq (z : Int) (k : Nat) (hk : 1 ≤ k) (h : minLen z.natAbs = k) :
+    encodeMin z = natToLEn k (z.natAbs + (if z < 0 then 2 ^ (8 * k - 1) else 0)) := by
+  unfold encodeMin
+  simp only [h]
+  rw [if_neg (by omega)]
+
+theorem encodeMin_zero : encodeMin 0 = [] := by decide
+
+/-- a minimal encoding is the closed-form minimal encoding of its own value -/
+theorem encodeMin_value_of_minimal (s : Bytes) (hmin : Minimal s) : encodeMin (value s) = s := by
+  by_cases hs : s = []
+  · subst hs; decide
+  · obtain ⟨init, d, rfl⟩ := list_snoc_of_ne_nil s hs
+    have hA := leToNat_lt init
+    have hd := d.toNat_lt
+    have hP : 0 < 256 ^ init.length := Nat.pow_pos (by decide)
+    have hk : minLen (leToNat init + 256 ^ init.length * (d.toNat % 128)) = init.length + 1 ∧
+        leToNat init + 256 ^ init.length * (d.toNat % 128) ≠ 0 := by
+      have hub : 256 ^ init.length * (d.toNat % 128) ≤ 256 ^ init.length * 127 :=
+        Nat.mul_le_mul_left _ (by omega)
+      have hlow : (init.length + 1 = 1 ∨ 2 ^ (8 * (init.length + 1 - 1) - 1) ≤
+            leToNat init + 256 ^ init.length * (d.toNat % 128)) ∧
+          leToNat init + 256 ^ init.length * (d.toNat % 128) ≠ 0 := by
+        unfold Minimal at hmin
+        simp only [List.getLast?_append, List.getLast?_singleton, Option.some_or,
+          List.dropLast_concat, clearSign_toNat] at hmin
+        rcases hmin with h | ⟨p, hp, hp128⟩
+        · have : 256 ^ init.length * 1 ≤ 256 ^ init.length * (d.toNat % 128) :=
+            Nat.mul_le_mul_left _ (by omega)
+          have h2 : 2 ^ (8 * (init.length + 1 - 1) - 1) ≤ 256 ^ init.length := by
+            rw [pow256]; exact Nat.pow_le_pow_right (by decide) (by omega)
+          constructor
+          · right; omega
+          · omega
+        · have hne : init ≠ [] := by intro hc; subst hc; simp at hp
+          obtain ⟨i2, p', rfl⟩ := list_snoc_of_ne_nil init hne
+          simp only [List.getLast?_append, List.getLast?_singleton, Option.some_or,
+            Option.some.injEq] at hp
+          subst hp
+          have hP2 : 0 < 256 ^ i2.length := Nat.pow_pos (by decide)
+          have : 256 ^ i2.length * 128 ≤ 256 ^ i2.length * p'.toNat := Nat.mul_le_mul_left _ hp128
+          simp only [List.length_append, List.length_singleton, leToNat_snoc,
+            Nat.add_sub_cancel, top_eq]
+          constructor
+          · right; omega
+          · omega
+      refine ⟨minLen_eq _ _ hlow.2 (by omega) ?_ hlow.1, hlow.2⟩
+      rw [top_eq]; omega
+    obtain ⟨hk, hne0⟩ := hk
+    have hnat := natToLEn_leToNat (init ++ [d])
+    rw [value_snoc]
+    by_cases hneg : d.toNat ≥ 128
+    · rw [if_pos hneg]
+      rw [encodeMin_eq _ (init.length + 1) (by omega) (by rw [Int.natAbs_neg, Int.natAbs_natCast]; exact hk)]
+      rw [if_pos (by omega)]
+      rw [← hnat]
+      simp only [List.length_append, List.length_singleton, leToNat_snoc, top_eq, Int.natAbs_neg,
+        Int.natAbs_natCast]
+      congr 1
+      have e : 256 ^ init.length * d.toNat = 256 ^ init.length * 128 + 256 ^ init.length * (d.toNat % 128) := by
+        rw [← Nat.mul_add]; congr 1; omega
+      omega
+    · rw [if_neg hneg]
+      rw [encodeMin_eq _ (init.length + 1) (by omega) (by rw [Int.natAbs_natCast]; exact hk)]
+      rw [if_neg (by omega)]
+      rw [← hnat]
+      simp only [List.length_append, List.length_singleton, leToNat_snoc, Int.natAbs_natCast,
+        Nat.add_zero]
+      rw [show d.toNat % 128 = d.toNat by omega]
+
+theorem byte_ne_zero_toNat {d : UInt8} (h : d ≠ 0) : d.toNat ≠ 0 := by
+  intro hc; apply h; exact UInt8.toNat_inj.mp (by simpa using hc)
+
+/-- every output of `encode_bigint` is minimally encoded -/
+theorem encodeBig_minimal (z : Int) : Minimal (encodeBig z) := by
+  by_cases hz : z = 0
+  · subst hz; simp [encodeBig, magBytes, Minimal]
+  · have hn : z.natAbs ≠ 0 := by omega
+    obtain ⟨init, d, hm, hd⟩ := natToLE_last z.natAbs hn
+    have hdpos := byte_ne_zero_toNat hd
+    have hdlt := d.toNat_lt
+    unfold encodeBig
+    simp only [magBytes, hn, if_false, hm, List.getLast?_append, List.getLast?_singleton,
+      Option.getD_some, List.dropLast_concat, Option.some_or]
+    by_cases hbig : d.toNat ≥ 128
+    · simp only [hbig, if_true]
+      have hne : ¬ (init ++ [d] ++ [if z < 0 then (0x80 : UInt8) else 0x00] = [0]) := by
+        intro hc; have := congrArg List.length hc; simp at this
+      rw [if_neg hne]
+      unfold Minimal
+      simp only [List.getLast?_append, List.getLast?_singleton, Option.some_or,
+        List.dropLast_concat]
+      exact Or.inr ⟨d, rfl, hbig⟩
+    · simp only [hbig, if_false]
+      by_cases hneg : z < 0
+      · simp only [hneg, if_true]
+        have hor := setSign_toNat d (by omega)
+        have hne : ¬ (init ++ [setSign d] = [0]) := by
+          intro hc
+          cases init with
+          | nil => simp at hc; have := congrArg UInt8.toNat hc; simp [hor] at this
+          | cons a as => have := congrArg List.length hc; simp at this
+        rw [if_neg hne]
+        unfold Minimal
+        simp only [List.getLast?_append, List.getLast?_singleton, Option.some_or, clearSign_toNat]
+        left; omega
+      · simp only [hneg, if_false]
+        have hne : ¬ (init ++ [d] = [0]) := by
+          intro hc
+          cases init with
+          | nil => simp at hc; exact hd hc
+          | cons a as => have := congrArg List.length hc; simp at this
+        rw [if_neg hne]
+        unfold Minimal
+        simp only [List.getLast?_append, List.getLast?_singleton, Option.some_or, clearSign_toNat]
+        left; omega
+
+/-- `encode_bigint` is the closed-form minimal encoding -/
+theorem encodeBig_eq_encodeMin (z : Int) : encodeBig z = encodeMin z := by
+  have h := encodeMin_value_of_minimal (encodeBig z) (encodeBig_minimal z)
+  rw [← decodeBig_eq_value, decode_encode] at h
+  exact h.symm
+
+/-- re-encoding the value of a minimal string gives the string back -/
+theorem encode_decode_of_minimal (s : Bytes) (h : Minimal s) : encodeBig (decodeBig s) = s := by
+  rw [encodeBig_eq_encodeMin, decodeBig_eq_value]; exact encodeMin_value_of_minimal s h
+
+theorem minimal_unique (s t : Bytes) (hs : Minimal s) (ht : Minimal t)
+    (h : decodeBig s = decodeBig t) : s = t := by
+  rw [← encode_decode_of_minimal s hs, ← encode_decode_of_minimal t ht, h]
+
+theorem decodeNum_small (s : Bytes) (h : s.length ≤ 4) : decodeNum s = .ok (decodeBig s) := by
+  unfold decodeNum decodeBig
+  cases s.getLast? with
+  | none => rfl
+  | some last => simp only [h, if_true]
+
+theorem leToNat_eq_zero_iff (l : Bytes) : leToNat l = 0 ↔ ∀ b ∈ l, b = 0 := by
+  induction l with
+  | nil => simp [leToNat]
+  | cons x xs ih =>
+    simp only [leToNat, List.mem_cons, forall_eq_or_imp]
+    constructor
+    · intro h
+      have h1 : x.toNat = 0 := by omega
+      have h2 : leToNat xs = 0 := by omega
+      exact ⟨UInt8.toNat_inj.mp (by simpa using h1), ih.mp h2⟩
+    · rintro ⟨rfl, h2⟩
+      have := ih.mpr h2
+      simp [this]
+
+/-- `decode_bool` is "the numeric value is non-zero" -/
+theorem decodeBool_iff (s : Bytes) : decodeBool s = true ↔ decodeBig s ≠ 0 := by
+  by_cases hs : s = []
+  · subst hs; simp [decodeBool, decodeBig]
+  · obtain ⟨init, d, rfl⟩ := list_snoc_of_ne_nil s hs
+    have hP : 0 < 256 ^ init.length := Nat.pow_pos (by decide)
+    rw [decodeBig_snoc]
+    unfold decodeBool
+    simp only [List.getLast?_append, List.getLast?_singleton, Option.some_or, List.dropLast_concat,
+      Bool.or_eq_true, List.any_eq_true, bne_iff_ne]
+    have hc : clearSign d ≠ 0 ↔ d.toNat % 128 ≠ 0 := by
+      rw [← clearSign_toNat]
+      constructor
+      · exact byte_ne_zero_toNat
+      · intro h hc; rw [hc] at h; exact h rfl
+    have hz := leToNat_eq_zero_iff init
+    have hmag : (leToNat init + 256 ^ init.length * (d.toNat % 128) ≠ 0) ↔
+        ((∃ x, x ∈ init ∧ x ≠ 0) ∨ clearSign d ≠ 0) := by
+      rw [hc]
+      constructor
+      · intro h
+        by_cases h0 : d.toNat % 128 = 0
+        · left
+          rw [h0] at h
+          have : leToNat init ≠ 0 := by simpa using h
+          rw [Ne, hz] at this
+          simpa using this
+        · right; exact h0
+      · rintro (⟨x, hx, hx0⟩ | h)
+        · have : leToNat init ≠ 0 := by rw [Ne, hz]; intro hall; exact hx0 (hall x hx)
+          omega
+        · have : 256 ^ init.length * 1 ≤ 256 ^ init.length * (d.toNat % 128) :=
+            Nat.mul_le_mul_left _ (by omega)
+          omega
+    rw [← hmag]
+    split <;> omega
+
+theorem ofNat_congr (a b : Nat) (h : a % 256 = b % 256) : UInt8.ofNat a = UInt8.ofNat b := by
+  apply UInt8.toNat_inj.mp; simpa using h
+
+/-- `encode_num` (the 4-byte `i32` encoder) agrees with `encode_bigint` on its whole domain -/
+theorem encodeNum_eq (v : Int) (h : v.natAbs ≤ 2147483647) : encodeNum v = .ok (encodeBig v) := by
+  rw [encodeBig_eq_encodeMin]
+  unfold encodeNum
+  rw [if_neg (by omega)]
+  simp only []
+  by_cases h0 : v.natAbs = 0
+  · have : v = 0 := by omega
+    subst this; rfl
+  rw [if_neg h0]
+  by_cases h1 : v.natAbs < 128
+  · rw [if_pos h1, encodeMin_eq v 1 (by omega) (minLen_eq _ 1 h0 (by omega) (by simpa using h1) (Or.inl rfl))]
+    by_cases hn : v < 0 <;>
+      simp only [hn, if_true, if_false, natToLEn, Outcome.ok.injEq, List.cons.injEq, and_true] <;>
+      (apply ofNat_congr; omega)
+  rw [if_neg h1]
+  by_cases h2 : v.natAbs < 32768
+  · rw [if_pos h2, encodeMin_eq v 2 (by omega) (minLen_eq _ 2 h0 (by omega) (by simpa using h2) (Or.inr (by simp; omega)))]
+    by_cases hn : v < 0 <;>
+      simp only [hn, if_true, if_false, natToLEn, Outcome.ok.injEq, List.cons.injEq, and_true] <;>
+      (repeat' apply And.intro) <;> (apply ofNat_congr; omega)
+  rw [if_neg h2]
+  by_cases h3 : v.natAbs < 8388608
+  · rw [if_pos h3, encodeMin_eq v 3 (by omega) (minLen_eq _ 3 h0 (by omega) (by simpa using h3) (Or.inr (by simp; omega)))]
+    by_cases hn : v < 0 <;>
+      simp only [hn, if_true, if_false, natToLEn, Outcome.ok.injEq, List.cons.injEq, and_true] <;>
+      (repeat' apply And.intro) <;> (apply ofNat_congr; omega)
+  rw [if_neg h3]
+  rw [encodeMin_eq v 4 (by omega) (minLen_eq _ 4 h0 (by omega) (by simp; omega) (Or.inr (by simp; omega)))]
+  by_cases hn : v < 0 <;>
+    simp only [hn, if_true, if_false, natToLEn, Outcome.ok.injEq, List.cons.injEq, and_true] <;>
+    (repeat' apply And.intro) <;> (apply ofNat_congr; omega)
 
 end CG.Proofs.ScriptNum
